@@ -5,6 +5,7 @@ func init() {
 		ID:    "C10",
 		Title: "String literals are HTML-escaped on output; raw() is the exact opt-out",
 		Rules: []string{
+			"R-OWN: each use of a component gets its own parsed program; slot bodies go into the program of their own use",
 			"R-OUTPUT: EvaluateString and Template.String return the String() of the evaluated object unchanged",
 			"R-LAYOUT (alias): ~ is expanded only in the name of @use / @component, to layouts/ and components/",
 			"R-SCOPE / R-PATHAPI (file content): a literal stored in a variable stays that variable's value (Env.Get / Env.Set by cases); EvaluateFile hands the file's bytes to EvaluateString unchanged",
@@ -17,6 +18,7 @@ func init() {
 		NotDecided:  "TODO",
 		Assumptions: trustedBase,
 		Run: func(m *Model, s *Sink) {
+			m.RunOwn(s, "R-OWN")                                         // a literal in the slot body of one use is printed by that use: each use has its own parsed program
 			m.RunOutputUnchanged(s, "R-OUTPUT")                          // the finished text is returned as it was printed (no pass over it changes a literal's bytes)
 			m.RunLayout(s, "R-LAYOUT")                                   // the ~ shortcut applies to the names of @use and @component only: an ordinary literal that starts with ~ keeps its text
 			m.RunScope(s, "R-SCOPE")                                     // a literal stored in a variable is what the variable prints: an inner binding does not overwrite an outer one
